@@ -69,6 +69,15 @@ def shapes(tier):
     # digital lines in two different buffers whose bits live at the same byte offset (and same type)
     out.append([seg([dm.Chan(P1, [S(0, 0, 0, 9, True)], 3), dm.Chan(P2, [S(0, 0, 1, 10, True)], 3)], [2, 3], 2, False)])
     out.append([seg([dm.Chan(P1, [S(0, 2, 0, 3, True), S(1, 2, 0, 5, True)], 2), dm.Chan(P2, [S(0, 2, 1, 3, True)], 2)], [2, 4], 2, True)])
+    # a later segment re-writes the DAQmx index with the same types, widths and counts but the scalers at other offsets / bits
+    for big in (False, True):
+        out.append([seg([dm.Chan(P1, [S(0, 3, 0, 0)], 2), dm.Chan(P2, [S(0, 3, 0, 3)], 2)], [6], 2, big),
+                    seg([dm.Chan(P1, [S(0, 3, 0, 3)], 2), dm.Chan(P2, [S(0, 3, 0, 0)], 2)], [6], 1, big),
+                    seg([dm.Chan(P1, [S(0, 3, 0, 1)], 2), dm.Chan(P2, [S(0, 3, 0, 4)], 2)], [6], 2, big)])
+    out.append([seg([dm.Chan(P1, [S(0, 0, 0, 3, True)], 3), dm.Chan(P2, [S(0, 0, 0, 12, True)], 3)], [2], 1, False),
+                seg([dm.Chan(P1, [S(0, 0, 0, 12, True)], 3), dm.Chan(P2, [S(0, 0, 0, 5, True)], 3)], [2], 2, False)])
+    out.append([seg([dm.Chan(P1, [S(0, 3, 0, 0)], 2), dm.Chan(P2, [S(0, 3, 1, 0)], 2)], [2, 4], 1, False),
+                seg([dm.Chan(P1, [S(0, 3, 1, 2)], 2), dm.Chan(P2, [S(0, 3, 0, 0)], 2)], [2, 4], 2, False)])
     if tier == 'thorough':
         for big in (False, True):
             for t0 in range(10):
